@@ -83,6 +83,17 @@ def fam_solve(ctx, R_, n, fixed, dom=None):
     for i in range(R_):
         lhs = sum(M[i][j] * xs[j] for j in range(n))
         ctx.require(near(lhs, M[i][n], tol), 'C16:returned tuple does not satisfy an equation')
+    # the Solution object may be called again (with other free values): the answer must again be a solution
+    vals2 = [ctx.param('w%d' % k) for k in range(va)]
+    st, ys = call(lambda: sol(*[ctx.lib(v) for v in vals2]))
+    if st == 'raise':
+        ctx.fail('C16:calling the solution a second time raises %s' % exc_sig(ys), repr(ys))
+    ctx.require(isinstance(ys, tuple) and len(ys) == n and not any(y is None for y in ys), 'C16:second call does not return a tuple of numbers')
+    for i in range(R_):
+        lhs = sum(M[i][j] * ys[j] for j in range(n))
+        ctx.require(near(lhs, M[i][n], tol), 'C16:tuple returned by a second call of the same Solution does not satisfy an equation')
+    st, b2 = call(lambda: (bool(sol), sol.varargs))
+    ctx.require(st == 'ok' and b2 == (True, va), 'C16:truthiness / varargs change after calling the solution')
 
 
 def families(tier, seed):
